@@ -119,7 +119,11 @@ def _op(draw, m, n, depth):
             )
     elif vk == "nested":
         v["v"] = draw(_history(depth - 1, shape=(r, c), max_ops=4))
-    elif vk == "bad":
+    if vk in ("dense", "coo", "csr", "csc"):
+        # element type of the block: float64, or (values rounded) an integer / single-precision / boolean block such as an
+        # incidence or selection matrix
+        v["dtype"] = draw(st.sampled_from(["float64", "float64", "float64", "int64", "float32", "bool", "int32"]))
+    if vk == "bad":
         dr, dc = draw(st.sampled_from([(1, 0), (0, 1), (1, 1), (-1, 0), (0, -1), (2, 3)]))
         rr, cc = max(0, r + dr), max(0, c + dc)
         if (rr, cc) == (r, c):
@@ -181,8 +185,14 @@ def _build(hist, stats):
             value = None
         elif kind == "dense":
             block = np.array(v["v"], dtype=float).reshape(r, c)
-            # alternate between ndarray and nested-list values
-            value = [list(row) for row in v["v"]] if (i % 2 == 0 and r * c > 0) else block.copy()
+            dt = v.get("dtype", "float64")
+            if dt != "float64":
+                typed = (np.round(block) > 0) if dt == "bool" else np.round(block).astype(dt)
+                block = typed.astype(float)
+                value = typed
+            else:
+                # alternate between ndarray and nested-list values
+                value = [list(row) for row in v["v"]] if (i % 2 == 0 and r * c > 0) else block.copy()
         elif kind == "scalar":
             block = np.array([[v["v"]]])
             value = v["v"]
@@ -192,12 +202,24 @@ def _build(hist, stats):
         elif kind in ("coo", "csr", "csc"):
             block = np.zeros((r, c))
             ent = v["v"]
-            for a, b, x in ent:
-                block[a, b] += x
+            dt = v.get("dtype", "float64")
             rows = np.array([e[0] for e in ent], dtype=int)
             cols = np.array([e[1] for e in ent], dtype=int)
             data = np.array([e[2] for e in ent], dtype=float)
+            if dt != "float64":
+                data = (np.round(data) > 0) if dt == "bool" else np.round(data).astype(dt)
             value = coo_array((data, (rows, cols)), shape=(r, c))
+            if dt == "bool":
+                # duplicates of a boolean block are or-ed by scipy on conversion; keep one entry per position
+                keep = {}
+                for a, b, x in zip(rows, cols, data):
+                    keep[(int(a), int(b))] = bool(x) or keep.get((int(a), int(b)), False)
+                rows = np.array([k[0] for k in keep], dtype=int)
+                cols = np.array([k[1] for k in keep], dtype=int)
+                data = np.array(list(keep.values()), dtype=bool)
+                value = coo_array((data, (rows, cols)), shape=(r, c))
+            for a, b, x in zip(rows, cols, data):
+                block[a, b] += float(x)
             if kind == "csr":
                 value = csr_array(value)
             elif kind == "csc":
